@@ -25,6 +25,10 @@ for line in open(os.path.join(ROOT, "properties.jsonl")):
         files |= set(json.loads(line).get("anchors", {}).get("files", []))
 for c in glob.glob(os.path.join(ROOT, "conf", "C*.json")):
     files |= set(json.load(open(c)).get("also_depends_on", []))
+# every source file: a property's set is its anchors plus the modules they use (computed by ./check)
+for dp, _, fs in os.walk(os.path.join(REPO, "src")):
+    for f in fs:
+        files.add(os.path.relpath(os.path.join(dp, f), REPO))
 cur = {f: sha(os.path.join(REPO, f)) for f in sorted(files)}
 fp = os.path.join(ROOT, "fingerprints.json")
 if "--update" in sys.argv:
